@@ -55,12 +55,28 @@ CHECKS = {
             "validated: inside plain bound consistency (real routine on a copy) and inside the specification's greatest "
             "fixpoint, keeps every solution, stack height unchanged, unrefuted probes restored exactly.", TRUST_ENGINE,
             TECH_ENGINE),
+    "C11": ("model_checking", "spec/MPSolver.tla explores every interleaving of the workers' puts and the parent's gets "
+            "(scenarios = streams produced by the real worker methods on real splits): bag equality, best-of, None-iff, "
+            "returns only after all workers, final statistics per worker, termination. Every arrival order TLC "
+            "enumerates is replayed through the real parent loop and each run is judged by TLC (MPTrace.tla) against "
+            "the specification's parent and the sequential solver; real-process runs are validated the same way.",
+            "Trusted: TLC, spec/MPParent.tla + MPSolver.tla + MPTrace.tla, harness/mp_worker.py (fake Queue/Process "
+            "installed from outside). Scope: <= 4 workers, <= 11 messages per scenario for the exhaustive orders.",
+            "TLA+ model checking of all interleavings (MPSolver.tla) + replay of every TLC-enumerated arrival order "
+            "through the real parent loop + TLA+ trace validation of each run (MPTrace.tla)"),
     "C14": ("model_checking", "Same corpus; TLC compares each output with the brute-force hull of the supports, checks "
             "failure exactly without support, idempotence of a second call, and affine_eq against the one-round "
             "interval operator AffineEqRound.", TRUST_CALLS, TECH_CALLS),
     "C17": ("model_checking", "NucsAbs carries the observed event counts in the layout of the statistics array; at every "
             "pass end, yield, return and at the end the 13 reported counters must equal them; conservation laws are "
             "clauses of Done.", TRUST_ENGINE, TECH_ENGINE),
+    "C18": ("fault_enumeration", "Design: MPSolver.tla with Crash(w) - under weak fairness the parent always returns or "
+            "raises (and the blocking-read design is shown to hang, as a negative control). Code: real processes, every "
+            "worker x death point (before the first message, between messages, before the completion marker) x "
+            "enumeration/optimisation; the call must return or raise within the deadline.",
+            "Trusted: the fork start method, os._exit as the crash, deadlines of 25 s; crash points are message "
+            "boundaries.", "TLC liveness check of MPSolver.tla with crashes + fault injection on the real "
+            "MultiprocessingSolver (fork-inherited queue wrapper, no source hook)"),
 }
 
 PENDING = "check under construction in this session (see DESIGN.md section 6 for the plan); not claimed until its machinery is committed"
